@@ -69,8 +69,10 @@ class Built:
         self._keep = []  # keep wrappers alive so ids stay unique
 
 
-def build(pp, prog) -> Built:
-    """execute a program with the real public API"""
+def build(pp, prog, use_hook=None) -> Built:
+    """execute a program with the real public API.
+    use_hook(b, var, expr, payload): called for ["_", "use", var, payload] statements (C12: parse with an
+    expression in the middle of a composition sequence); without a hook those statements do nothing."""
     b = Built(pp)
     env = b.env
 
@@ -175,6 +177,36 @@ def build(pp, prog) -> Built:
         elif op == "parse_with_tabs":
             ref(a[0]).parse_with_tabs()
             continue
+        # ---- C12: the remaining operator sugar / naming forms -----------------------------------------
+        elif op == "...":           # a + ... + b
+            v = ref(a[0]) + ... + ref(a[1])
+        elif op == "AndL":          # And([...]) where a null element stands for Ellipsis
+            v = pp.And([(... if x is None else ref(x)) for x in a[0]])
+        elif op == "[:]":           # a[...:stop] (m null) / a[m, ...:stop]
+            v = ref(a[0])[...:ref(a[2])] if a[1] is None else ref(a[0])[a[1], ...:ref(a[2])]
+        elif op == "|''":
+            v = ref(a[0]) | ""
+        elif op == "&":
+            v = ref(a[0]) & ref(a[1])
+        elif op == "alias":         # another name for the same object
+            v = ref(a[0])
+        elif op == "call":          # expr()
+            v = ref(a[0])()
+        elif op == "set_results_name":
+            v = ref(a[0]).set_results_name(a[1], list_all_matches=bool(a[2]) if len(a) > 2 else False)
+        elif op == "lw_inplace":    # documented in-place mutator of the (fresh) composite itself
+            ref(a[0]).leave_whitespace()
+            continue
+        elif op == "iw_inplace":
+            ref(a[0]).ignore_whitespace()
+            continue
+        elif op == "streamline":
+            ref(a[0]).streamline()
+            continue
+        elif op == "use":
+            if use_hook is not None:
+                use_hook(b, a[0], ref(a[0]), a[1] if len(a) > 1 else None)
+            continue
         else:
             raise ValueError(f"unknown statement {st!r}")
         env[var] = v
@@ -190,6 +222,13 @@ def _chars(cs):
 
 def extract(b: Built, root):
     """returns (list of node S-expressions, root index). The caller must have streamlined `root`."""
+    nodes, _ris, _ids, _order = extract_multi(b, [root])
+    return nodes, 0
+
+
+def extract_multi(b: Built, roots):
+    """several roots in one table (C12: pools, pre/post-streamline tables): returns
+    (nodes, [index of each root], {id(obj): index}, [objects in index order])"""
     pp = b.pp
     core = pp.core
     ids, order = {}, []
@@ -202,7 +241,7 @@ def extract(b: Built, root):
         order.append(e)
         return ids[k]
 
-    visit(root)
+    root_ids = [visit(r) for r in roots]
     nodes = []
     i = 0
     T, F = True, False
@@ -297,7 +336,7 @@ def extract(b: Built, root):
         nodes.append([kind, bool(e.skipWhitespace), _chars(e.whiteChars), bool(e.callPreparse), bool(e.mayIndexError),
                       [visit(x) for x in e.ignoreExprs], acts, bool(e.callDuringTry), len(str(e)),
                       bool(e.resultsName)])
-    return nodes, 0
+    return nodes, root_ids, ids, order
 
 
 def prepare(b: Built, rootvar):
